@@ -188,8 +188,11 @@ func reduce(l Lin, eqs []Lin) Lin {
 func scaleLin(l Lin, c *big.Rat) Lin {
 	r := l.clone()
 	r.C.Mul(r.C, c)
-	for _, v := range r.T {
+	for k, v := range r.T {
 		v.Mul(v, c)
+		if v.Sign() == 0 {
+			delete(r.T, k)
+		}
 	}
 	return r
 }
